@@ -94,6 +94,9 @@ def parseEv (s : String) : Option (Ev × String × Option Bytes) :=
   -- (Props/C15Cluster.lean clientDo_refines: the routed request is the single-store request)
   | ["mg", k, _] => do let k ← Hex.decode k; pure (.tick 0, "mg", some k)
   | ["mk", k] => do let k ← Hex.decode k; pure (.tick 0, "mk", some k)
+  -- Leader() during which the key's slot moves / starts migrating between its two requests: a Leader() all the same
+  | ["lm", k, _, _] => do let k ← Hex.decode k; pure (.leader k, "lm", some k)
+  | ["la", k, _, _] => do let k ← Hex.decode k; pure (.leader k, "la", some k)
   -- a call answered AFTER the caller's deadline: "d" = the call waited for it (an ordinary call), "t" = it gave up
   -- (the script still ran: a lost-but-applied call). Every LATER call gets the store's answer to that call.
   | ["late", "c", k, i, "d"] => do let k ← Hex.decode k; let i ← Hex.decode i; pure (.campaign k i, "late", some k)
@@ -102,6 +105,14 @@ def parseEv (s : String) : Option (Ev × String × Option Bytes) :=
   | ["late", "c", k, i, "t"] => do let k ← Hex.decode k; let i ← Hex.decode i; pure (.lostCampaign k i true, "late", some k)
   | ["late", "r", k, i, "t"] => do let k ← Hex.decode k; let i ← Hex.decode i; pure (.lostCampaign k i true, "late", some k)
   | ["late", "x", k, i, "t"] => do let k ← Hex.decode k; let i ← Hex.decode i; pure (.lostResign k i true, "late", some k)
+  -- a call made with an already cancelled context: "d" = the election ignored it (an ordinary call), "n" = it refused
+  -- without sending anything (nothing applied, belief unchanged; a Resign still means the instance had stopped)
+  | ["can", "c", k, i, "d"] => do let k ← Hex.decode k; let i ← Hex.decode i; pure (.campaign k i, "can", some k)
+  | ["can", "r", k, i, "d"] => do let k ← Hex.decode k; let i ← Hex.decode i; pure (.renew k i, "can", some k)
+  | ["can", "x", k, i, "d"] => do let k ← Hex.decode k; let i ← Hex.decode i; pure (.resign k i, "can", some k)
+  | ["can", "c", k, i, "n"] => do let k ← Hex.decode k; let i ← Hex.decode i; pure (.lostCampaign k i false, "can", some k)
+  | ["can", "r", k, i, "n"] => do let k ← Hex.decode k; let i ← Hex.decode i; pure (.lostCampaign k i false, "can", some k)
+  | ["can", "x", k, i, "n"] => do let k ← Hex.decode k; let i ← Hex.decode i; pure (.lostResign k i false, "can", some k)
   | ["lc", k, i, a, _] => do
     let k ← Hex.decode k; let i ← Hex.decode i; let a ← parseBool a
     pure (.lostCampaign k i a, "lc", some k)
